@@ -95,6 +95,8 @@ func genStop(c *ctx) {
 		bad      []string
 		outcome  string
 		dur      time.Duration
+		keys     [][]byte // who == client-keys: what is typed after the Ctrl-C that opens the question
+		choice   int      // ... and the entry that sequence selects (0 keep, 1 delete, 2 continue)
 	}
 	var cases []*sc
 	nb := c.pick(6, 16)
@@ -110,15 +112,50 @@ func genStop(c *ctx) {
 		per := c.pick(10, 80)
 		for k := 0; k < per; k++ {
 			s := &sc{cfg: cfg, tops: tops, root: root}
-			s.who = []string{"client", "server", "client-prompt"}[c.rng.Intn(3)]
+			s.who = []string{"client", "server", "client-prompt", "client-keys", "client-after-continue"}[c.rng.Intn(5)]
 			s.del = s.who != "server" && c.rng.Intn(2) == 0
+			if s.who == "client-keys" {
+				// the stop question driven by arbitrary navigation keys: Ctrl-C opens it, 0-4 moves,
+				// then Enter (the entry under the cursor) / Ctrl-C (stop and keep, from anywhere) /
+				// q (continue, from anywhere); entries: 0 keep, 1 delete, 2 continue; no wrap-around
+				cur := 0
+				for n := c.rng.Intn(5); n > 0; n-- {
+					k := [][]byte{{'\t'}, {'j'}, {0x0e}, {0x1b, '[', 'B'}, {'k'}, {0x10}, {0x1b, '[', 'A'}, {0x1b, '[', 'Z'}}[c.rng.Intn(8)]
+					s.keys = append(s.keys, k)
+					if k[len(k)-1] == '\t' || k[len(k)-1] == 'j' || k[len(k)-1] == 0x0e || k[len(k)-1] == 'B' {
+						if cur < 2 {
+							cur++
+						}
+					} else if cur > 0 {
+						cur--
+					}
+				}
+				switch c.rng.Intn(3) {
+				case 0:
+					s.keys = append(s.keys, []byte{'\r'})
+				case 1:
+					s.keys, cur = append(s.keys, []byte{0x03}), 0
+				default:
+					s.keys, cur = append(s.keys, []byte{'q'}), 2
+				}
+				s.choice = cur
+				s.del = cur == 1
+			}
 			s.dir = c.rng.Intn(2)
 			if counts[s.dir] > 0 {
 				s.idx = c.rng.Intn(counts[s.dir] + 1)
 			}
 			s.preexist = c.rng.Intn(2) == 0
+			if pr := os.Getenv("VERIF_STOP_PROBE"); pr != "" {
+				// investigation aid: VERIF_STOP_PROBE="who dir idx" pins the stop of every case
+				fmt.Sscanf(pr, "%s %d %d", &s.who, &s.dir, &s.idx)
+				s.del = false
+			}
 			s.desc = fmt.Sprintf("stop by %s delete=%v at %s write #%d/%d preexisting=%v :: %s", s.who, s.del,
 				[]string{"c2s", "s2c"}[s.dir], s.idx, counts[s.dir], s.preexist, describeCfg(cfg))
+			if s.who == "client-keys" {
+				s.desc += fmt.Sprintf(" keys=%q selects entry %d", s.keys, s.choice)
+			}
 			cases = append(cases, s)
 		}
 	}
@@ -148,7 +185,9 @@ func genStop(c *ctx) {
 		var runMu sync.Mutex
 		cfg.onStart = func(r *e2eRun) { runMu.Lock(); run = r; runMu.Unlock() }
 		var stopAt time.Time
-		cfg.hook = atWriteSync(s.dir, s.idx, func() {
+		var keysMu sync.Mutex
+		var throttle atomic.Bool
+		inner := atWriteSync(s.dir, s.idx, func() {
 			for k := 0; k < 2000; k++ {
 				runMu.Lock()
 				r := run
@@ -169,6 +208,43 @@ func genStop(c *ctx) {
 							}
 							r.cliIn.Write([]byte{'\r'})
 						}()
+					case "client-keys":
+						stopAt = time.Time{}
+						go func() {
+							r.cliIn.Write([]byte{0x03})
+							time.Sleep(250 * time.Millisecond)
+							for _, k := range s.keys[:len(s.keys)-1] {
+								r.cliIn.Write(k)
+								time.Sleep(40 * time.Millisecond)
+							}
+							if s.choice != 2 {
+								keysMu.Lock()
+								stopAt = time.Now()
+								keysMu.Unlock()
+							}
+							r.cliIn.Write(s.keys[len(s.keys)-1])
+						}()
+					case "client-after-continue":
+						// Ctrl-C, a long think, continue - and shortly afterwards the real stop; from the
+						// first Ctrl-C on the link is slow, so that the second one lands inside the transfer
+						throttle.Store(true)
+						stopAt = time.Time{}
+						go func() {
+							r.cliIn.Write([]byte{0x03})
+							time.Sleep(2700 * time.Millisecond) // more than half the server's timeout
+							r.cliIn.Write([]byte{'q'})
+							time.Sleep(200 * time.Millisecond)
+							r.cliIn.Write([]byte{0x03})
+							time.Sleep(200 * time.Millisecond)
+							if s.del {
+								r.cliIn.Write([]byte{'j'})
+								time.Sleep(40 * time.Millisecond)
+							}
+							keysMu.Lock()
+							stopAt = time.Now()
+							keysMu.Unlock()
+							r.cliIn.Write([]byte{'\r'})
+						}()
 					default:
 						r.cmd.Process.Signal(syscall.SIGINT)
 					}
@@ -177,8 +253,19 @@ func genStop(c *ctx) {
 				time.Sleep(time.Millisecond)
 			}
 		})
+		cfg.hook = func(d, i int, b []byte) e2eAction {
+			a := inner(d, i, b)
+			if throttle.Load() {
+				time.Sleep(25 * time.Millisecond)
+			}
+			return a
+		}
 		t0 := time.Now()
 		res := runTransfer(cfg, s.tops, dest)
+		keysMu.Lock()
+		stopSeen := stopAt
+		keysMu.Unlock()
+		stopAt = stopSeen
 		if !stopAt.IsZero() {
 			s.dur = time.Since(stopAt)
 		} else {
@@ -208,13 +295,29 @@ func genStop(c *ctx) {
 				}
 			}
 		}
+		if !s.del && stopped == "Stopped and deleted" {
+			s.bad = append(s.bad, "deleted-without-request: the user chose a plain stop (or to continue), shown: Stopped and deleted")
+		}
+		if s.who == "client-keys" && s.outcome != "hung" {
+			want := []string{"Stopped", "Stopped and deleted", "success"}[s.choice]
+			if s.outcome != want && s.outcome != "success" {
+				s.bad = append(s.bad, fmt.Sprintf("wrong-choice: the keys select entry %d (%s), the transfer ended as %q", s.choice, want, s.outcome))
+			}
+		}
 		if !stopAt.IsZero() && s.outcome == "error" {
 			// each side reports that it was stopped (or success): any other final message after a
 			// delivered stop means a side was not told / did not notice
 			s.bad = append(s.bad, fmt.Sprintf("not-reported-as-stopped: after the stop the transfer ended with %q", tailStr(shown, 200)))
 		}
 		if !stopAt.IsZero() && s.dur > 8*time.Second {
-			s.bad = append(s.bad, fmt.Sprintf("slow-stop: both sides needed %.1fs after the stop", s.dur.Seconds()))
+			kind := "slow-stop"
+			if s.cfg.tunnel && s.who == "server" && (strings.Contains(res.serverOut, "#fail:") || strings.Contains(res.serverOut, "#FAIL:")) {
+				// the server was stopped after the tunnel greeting but before it had read the ACT: it
+				// still talks in-band, the client already listens to the tunnel only (known finding)
+				kind = "tunnel-server-stopped-before-act"
+			}
+			s.bad = append(s.bad, fmt.Sprintf(kind+": both sides needed %.1fs after the stop (client %.1fs, server %.1fs after the start); shown %q",
+				s.dur.Seconds(), res.clientDur.Seconds(), res.serverDur.Seconds(), tailStr(shown, 300)))
 		}
 		// success only if everything is complete and identical
 		if saved {
